@@ -436,7 +436,8 @@ def run_query_(o, tier, backend):
     wrapped = ['/usr/bin/time', '-f', 'VERIF_RSS_KB=%M', '-o', os.path.join(fam.fdir, o.entry + '.rss')] + cmd
     lim = 'ulimit -v %d; exec "$@"' % (gb_cap * 1024 * 1024)
     p = subprocess.Popen(['bash', '-c', lim, 'bash'] + wrapped, stdout=subprocess.PIPE, stderr=subprocess.PIPE,
-                         text=True, errors='replace', start_new_session=True)
+                         text=True, errors='replace', start_new_session=True,
+                         env=dict(os.environ, TMPDIR=fam.fdir))      # solver scratch files die with the work directory
     _children.add(p)
     try:
         out, err = p.communicate(timeout=secs)
